@@ -1,7 +1,7 @@
 (* Proofs about the cell layer (Cells.v): what a reader of the report can recover from the
    printed text, for EVERY non-negative value (no bound on magnitude). *)
 From Coq Require Import QArith Qabs.
-From LP Require Import Prelude.Py Report.LayoutStr Report.Layout Report.Cells.
+From LP Require Import Prelude.Py Report.LayoutStr Report.Layout Report.LayoutProofs Report.Cells.
 Open Scope Z_scope.
 
 (* ---- rounding --------------------------------------------------------------------- *)
@@ -358,3 +358,35 @@ Theorem hits_fallback_six_digits :
         let '(D, X) := sig_digits 6 x in
         (Qabs (inject_Z D * pow10Q (X - 6 + 1) - x) <= (1 # 2) * pow10Q (X - 6 + 1))%Q).
 Proof. split; [exact hits_cell_fallback|]. intros x Hx. apply (sig_digits_precision 6 x); [lia|exact Hx]. Qed.
+
+(* ---- the command lines ------------------------------------------------------------------------ *)
+(* The viewer shows every function of the loaded statistics exactly once (under -z those with
+   hits), each block being show_func of that key's own timings, and with -m one summary line per
+   shown function in the same order: nothing between the pickle and the report merges, renames or
+   drops a key. *)
+Theorem viewer_cli_every_function_once unit u z t m E (st : stats) :
+  NoDup (map fst st) ->
+  let r := viewer_cli_report unit u z t m E st in
+  NoDup (map b_key (rp_blocks r))
+  /\ (forall k tm, In (k, tm) st -> (In k (map b_key (rp_blocks r)) <-> (z = false \/ total_hits tm <> 0)))
+  /\ (forall b, In b (rp_blocks r) ->
+        exists tm, In (b_key b, tm) st /\ show_func (py_formatter unit (Some u)) E z (b_key b) tm = Some b)
+  /\ (m = true -> map fst (rp_summary r) = map b_key (rp_blocks r)).
+Proof.
+  intros Hnd r.
+  destruct (every_function_once (py_formatter unit (Some u)) E (mkOpts z t m true) st Hnd eq_refl) as [H1 [H2 H3]].
+  split; [exact H1|]. split; [exact H2|]. split; [exact H3|].
+  intros ->. apply (summary_matches_details (py_formatter unit (Some u)) E (mkOpts z t true true) st); reflexivity.
+Qed.
+
+Theorem kernprof_view_every_function_once unit u z E (st : stats) :
+  NoDup (map fst st) ->
+  let r := kernprof_view_report unit u z E st in
+  NoDup (map b_key (rp_blocks r))
+  /\ (forall k tm, In (k, tm) st -> (In k (map b_key (rp_blocks r)) <-> (z = false \/ total_hits tm <> 0)))
+  /\ (forall b, In b (rp_blocks r) ->
+        exists tm, In (b_key b, tm) st /\ show_func (py_formatter unit (Some u)) E z (b_key b) tm = Some b).
+Proof.
+  intros Hnd r.
+  exact (every_function_once (py_formatter unit (Some u)) E (mkOpts z false false true) st Hnd eq_refl).
+Qed.
